@@ -52,6 +52,11 @@ type Project struct {
 	// Opt: constructor options. jschema: "optkeys" (keys optional by default);
 	// rschema: "seed=<n>" (regex.WithGeneratorSeed). Part of the input's identity.
 	Opt string `json:"opt,omitempty"`
+	// Buf > 0: the text is handed to the library as a []byte that lives in the
+	// caller's reusable buffer number Buf (the constructors keep the caller's slice).
+	// An object that takes a buffer over ends the life of the buffer's previous owner:
+	// no further call on it, nothing held from it. Not part of the input's identity.
+	Buf int `json:"buf,omitempty"`
 }
 
 type TypeSpec struct {
@@ -74,15 +79,16 @@ type projectJ struct {
 	Torn      string     `json:"torn,omitempty"`
 	ShareWith int        `json:"share_with,omitempty"`
 	Opt       string     `json:"opt,omitempty"`
+	Buf       int        `json:"buf,omitempty"`
 }
 
 func (p Project) MarshalJSON() ([]byte, error) {
-	return json.Marshal(projectJ{p.Kind, p.Name, Txt(p.Text), p.Types, p.Rules, p.Torn, p.ShareWith, p.Opt})
+	return json.Marshal(projectJ{p.Kind, p.Name, Txt(p.Text), p.Types, p.Rules, p.Torn, p.ShareWith, p.Opt, p.Buf})
 }
 func (p *Project) UnmarshalJSON(b []byte) error {
 	var j projectJ
 	err := json.Unmarshal(b, &j)
-	*p = Project{j.Kind, j.Name, string(j.Text), j.Types, j.Rules, j.Torn, j.ShareWith, j.Opt}
+	*p = Project{j.Kind, j.Name, string(j.Text), j.Types, j.Rules, j.Torn, j.ShareWith, j.Opt, j.Buf}
 	return err
 }
 
